@@ -16,17 +16,17 @@ Open Scope Z_scope.
 (** The round trip is FALSE of the code: one conforming witness per mechanism —
     the string "[1]" from memory (to_json re-parses it), the string "123" after FLUSH (EventBuilder
     re-types it), null in an optional string after FLUSH (var-bytes columns have no null bitmap),
-    9007199254740993 in a float field after FLUSH, 446.19296929045356 after WAL recovery. *)
+    9007199254740993 in a float field after FLUSH.  (The fifth witness, 446.19296929045356 after WAL
+    recovery, was retired by fix 32b7370; see C07_wal_exact.) *)
 Theorem C07_roundtrip_refuted :
   fails Utf8ReparsedOnRender TStr L_mem true (Some (JStr [91; 49; 93]%N)) /\
   fails StringRetyped TStr L_seg true (Some (JStr [49; 50; 51]%N)) /\
   fails NullStringBecomesEmpty (TOpt TStr) L_seg true (Some JNull) /\
-  fails IntegerInFloatFieldRounded TF64 L_seg true (Some (JU64 9007199254740993)) /\
-  fails FloatWalReparsedInexact TF64 L_wal true (Some (JF64 4646557125919078934)).
+  fails IntegerInFloatFieldRounded TF64 L_seg true (Some (JU64 9007199254740993)).
 Proof. exact roundtrip_refuted. Qed.
 Print Assumptions C07_roundtrip_refuted.
 
-(** Outside the five classes every conforming value of every definable field type comes back equal to
+(** Outside the FOUR remaining classes every conforming value of every definable field type comes back equal to
     what was stored, in every layout (memtable, WAL-recovered, flushed, compacted any number of times). *)
 Theorem C07_roundtrip_outside_known : forall t l cp v,
   definable t = true -> conforming t v = true -> col_consistent cp v = true ->
@@ -59,12 +59,11 @@ Print Assumptions C07_known_classes_fail.
 Theorem C07_tiers_agree_refuted :
   json_eqb (returned TStr L_mem true (Some (JStr [49; 50; 51]%N))) (returned TStr L_seg true (Some (JStr [49; 50; 51]%N))) = false /\
   json_eqb (returned (TOpt TStr) L_mem true (Some JNull)) (returned (TOpt TStr) L_seg true (Some JNull)) = false /\
-  json_eqb (returned TF64 L_mem true (Some (JU64 9007199254740993))) (returned TF64 L_seg true (Some (JU64 9007199254740993))) = false /\
-  json_eqb (returned TF64 L_mem true (Some (JF64 4646557125919078934))) (returned TF64 L_wal true (Some (JF64 4646557125919078934))) = false.
+  json_eqb (returned TF64 L_mem true (Some (JU64 9007199254740993))) (returned TF64 L_seg true (Some (JU64 9007199254740993))) = false.
 Proof. exact tiers_agree_refuted. Qed.
 Print Assumptions C07_tiers_agree_refuted.
 
-(** ... and agree outside the four tier-dependent ones (strings that to_json re-parses are returned
+(** ... and agree outside the three tier-dependent ones (strings that to_json re-parses are returned
     parsed, but identically, before flush, after flush, after compaction and after restart). *)
 Theorem C07_tiers_agree_outside_known : forall t l1 l2 cp1 cp2 v,
   definable t = true -> conforming t v = true ->
@@ -126,27 +125,43 @@ Theorem C07_projection_example :
 Proof. exact projection_example. Qed.
 Print Assumptions C07_projection_example.
 
-(** The memtable flow computes its column list twice, each time in the iteration order of a fresh
-    HashSet: with two requested payload fields a cell can carry the OTHER field's value
-    (class ReturnColumnsMislabelledInMemory) ... *)
-Theorem C07_return_mislabel_refuted :
-  exists o1 o2 : list bytes,
-    (forall x, In x o1 <-> In x o2) /\ NoDup o1 /\ NoDup o2 /\
-    return_mislabel_possible {| via_wal := false; in_seg := None |} [] [f_a; f_b] [f_a; f_b] = true /\
-    In (f_a, 2%Z)
-       (flow_row 0%Z (selection_columns [] o1) (selection_columns [] o2) (Some [f_a; f_b]) [f_a; f_b] ev_ab).
-Proof. exact return_mislabel_refuted. Qed.
-Print Assumptions C07_return_mislabel_refuted.
+(** After fix f2ae870 the requested names are appended in RETURN order: whatever orders the two former
+    HashSets would have had, the memtable flow under ANY RETURN list returns every cell under the column it
+    is named after, only core columns and requested schema fields, never drops a core column and returns
+    every requested schema field.  (Retired: C07_return_mislabel_refuted, C07_memtable_flow_exact_outside_known.) *)
+Theorem C07_memtable_flow_exact : forall (A : Type) (d : A) fc ret fields o1 o2 (ev : bytes -> A),
+  (forall name val, In (name, val) (memtable_flow_row d fc ret fields o1 o2 ev) -> val = ev name) /\
+  (forall name val, ret <> [] -> In (name, val) (memtable_flow_row d fc ret fields o1 o2 ev) ->
+     is_core name = true \/ (In name ret /\ mem_bytes name fields = true)) /\
+  (forall c, In c core_fields -> In (c, ev c) (memtable_flow_row d fc ret fields o1 o2 ev)) /\
+  (forall f, In f ret -> mem_bytes f fields = true -> In (f, ev f) (memtable_flow_row d fc ret fields o1 o2 ev)).
+Proof. exact memtable_flow_exact. Qed.
+Print Assumptions C07_memtable_flow_exact.
 
-(** ... and with at most one order-dependent column the two lists coincide and the flow is exact. *)
-Theorem C07_memtable_flow_exact_outside_known :
-  forall (A : Type) (d : A) fc o1 o2 ret fields (ev : bytes -> A) name val,
-  NoDup o1 -> NoDup o2 -> (forall x, In x o1 <-> In x o2) ->
-  (length (filter (fun f => negb (is_core f) && negb (mem_bytes f fc)) o1) <= 1)%nat ->
-  In (name, val) (flow_row d (selection_columns fc o1) (selection_columns fc o2) ret fields ev) ->
-  val = ev name.
-Proof. exact memtable_flow_exact_outside_known. Qed.
-Print Assumptions C07_memtable_flow_exact_outside_known.
+(** After fix 32b7370 (serde_json float_roundtrip) the WAL line is exact for every payload scalar, so a
+    WAL-recovering restart never changes what any layout returns.  (Retired: the witness
+    446.19296929045356 of C07_roundtrip_refuted / C07_tiers_agree_refuted, class FloatWalReparsedInexact.) *)
+Theorem C07_wal_exact : forall s,
+  (forall b, s = SFloat b -> f64_is_finite b = true) -> wal_scalar s = s.
+Proof. exact wal_exact. Qed.
+Print Assumptions C07_wal_exact.
+
+Theorem C07_restart_invisible : forall t seg cp v,
+  conforming t v = true ->
+  returned t {| via_wal := true; in_seg := seg |} cp v = returned t {| via_wal := false; in_seg := seg |} cp v.
+Proof. exact restart_invisible. Qed.
+Print Assumptions C07_restart_invisible.
+
+(** the two retired witnesses now pass: the float after WAL recovery, and the RETURN [a, b] row under the two
+    column orders that used to swap the values (the legacy reader is kept in the model for comparison) *)
+Theorem C07_former_witnesses_pass :
+  (returned TF64 L_wal true (Some (JF64 4646557125919078934)) = JF64 4646557125919078934 /\
+   wal_float_legacy 4646557125919078934 = SFloat 4646557125919078935) /\
+  memtable_flow_row 0%Z [] [f_a; f_b] [f_a; f_b] [f_a; f_b] [f_b; f_a] ev_ab
+  = [(nth 0 core_fields [], 0%Z); (nth 1 core_fields [], 0%Z); (nth 2 core_fields [], 0%Z); (nth 3 core_fields [], 0%Z);
+     (f_a, 1%Z); (f_b, 2%Z)].
+Proof. exact (conj wal_float_former_witness memtable_flow_former_witness). Qed.
+Print Assumptions C07_former_witnesses_pass.
 
 (** EventSink (REPLAY / ordered paths) and ConditionEvaluator (QUERY) materialise every cell identically:
     EventSink's extra [get_i64_at] attempt on var-bytes cells gives what add_payload_field gives. *)
